@@ -58,3 +58,17 @@ func refB(dst *DstB, src *SrcB) {
 
 func ref_CopyB(src *SrcB) *DstB      { dst := &DstB{}; refB(dst, src); return dst }
 func ref_IntoB(dst *DstB, src SrcB) { refB(dst, &src) }
+
+func ref_CopyN(src *SrcN) *DstN {
+	dst := &DstN{}
+	copyInts((*[]int)(&dst.Both), src.Both)
+	copyInts(&dst.ToRaw, src.ToRaw)
+	copyInts((*[]int)(&dst.ToList), src.ToList)
+	if src.Items != nil {
+		dst.Items = make(ItemList, len(src.Items))
+		for i, e := range src.Items {
+			dst.Items[i] = e
+		}
+	}
+	return dst
+}
